@@ -37,7 +37,7 @@ def _worker(prop, tier, seed, taskq, resq, cvc5):
     cases = mod.cases(tier, seed)
     from gtverif.case import run_case
 
-    class _TO(Exception):
+    class _TO(BaseException):
         pass
 
     def onalarm(sig, frm):
@@ -82,6 +82,11 @@ def match_known(known, prop, res):
     for f in known.get("findings", []):
         if f["property"] != prop:
             continue
+        if f.get("adjusted_vc"):
+            # the case itself re-checked the property modulo exactly this finding (unsat) -> same defect
+            if res.get("known_adjusted") == f["id"] and re.search(f["case"], res["id"]):
+                return f
+            continue
         if not re.search(f["case"], res["id"]):
             continue
         pats = f.get("labels") or [".*"]
@@ -99,6 +104,8 @@ def main(argv=None):
     ap.add_argument("--list", action="store_true")
     ap.add_argument("--no-evidence", action="store_true")
     ap.add_argument("--replay", default=None)
+    ap.add_argument("--times", action="store_true", help="print per-case timings")
+    ap.add_argument("--dump", action="store_true", help="print the full result JSON of every case")
     args = ap.parse_args(argv)
     prop = args.prop.upper()
     tier = args.tier if args.tier in ("quick", "thorough") else "quick"
@@ -187,7 +194,14 @@ def main(argv=None):
         if p.is_alive():
             p.kill()
 
-    return report(prop, tier, seed, [results[k] for k in sorted(results)], time.time() - t_start, write=not args.no_evidence and args.only is None, total_cases=len(cases))
+    rs = [results[k] for k in sorted(results)]
+    if args.times:
+        for r in sorted(rs, key=lambda r: -r.get("wall", 0))[:25]:
+            print(f"  {r.get('wall', 0):7.1f}s sym={r.get('t_sym', 0):6.1f} z3={r.get('t_solver', 0):6.2f} vars={r.get('n_vars')} obl={r.get('obligations')} {r['status']:12s} {r['id']}")
+    if args.dump:
+        for r in rs:
+            print(json.dumps(r, indent=1, default=str))
+    return report(prop, tier, seed, rs, time.time() - t_start, write=not args.no_evidence and args.only is None, total_cases=len(cases))
 
 
 def report(prop, tier, seed, results, wall, write=True, total_cases=None):
